@@ -196,7 +196,8 @@ def flags_end_to_end(ctx, rule, patterns):
     n = 0
     for label, pattern in patterns:
         def direct(I, pattern=pattern):
-            so = Obj(y2r, {"loaded_file": lift_skeleton(I, {"pattern": pattern}), "macros_from_terminal_filepath": NONE})
+            from ..models import new_yaml2regex
+            so = new_yaml2regex(I, lift_skeleton(I, {"pattern": pattern}))
             pats = I.call_func(y2r.find_method("_get_pattern"), [], {}, so, None, None)
             from ..models import rule_tree_call
             tree = rule_tree_call(I, y2r, so, pats)
@@ -249,7 +250,7 @@ def assembly_text_unmodified(ctx, rule):
               "the listing's text reaches the parser as read in text mode (line ends translated), unmodified")
 
 
-def compile_sequence_equals_fresh(ctx, rule, cases):
+def compile_sequence_equals_fresh(ctx, rule, cases, same_object=False):
     """cases: (label, [doc, ..., last]): Yaml2Regex(<file>).produce_regex() for each document in turn, in ONE run
     (one process: shared singleton, class attributes, module state); the outcome for the last document - the regex, or
     the exception - must be the outcome of compiling the last document alone in a fresh run"""
@@ -277,8 +278,31 @@ def compile_sequence_equals_fresh(ctx, rule, cases):
             txt = Ic.expr_of(p.value) if p.kind == "return" else f"{p.exc.type_name}"
             out.add((p.kind, _re.sub(r"#\d+", "", txt).replace(f"P{len(docs) - 1}", "P0")))
         return out
+    def again(doc):
+        """the same Yaml2Regex object asked twice: the second regex (or failure) against the first"""
+        def thunk(I):
+            I.run.user["docs"] = {"<P0>": doc}
+            y = I.construct(y2r, [Str((Hole("P0", "path", True),))], {}, None, None)
+            r1 = I.call_func(y2r.find_method("produce_regex"), [], {}, y, None, None)
+            I.run.user["first"] = r1
+            return I.call_func(y2r.find_method("produce_regex"), [], {}, y, None, None)
+        bad = []
+        for p in Ic.explore(thunk):
+            first = p.run.user.get("first")
+            if first is None:
+                continue                       # the first compilation failed: judged by the fresh-run comparison
+            a = _re.sub(r"#\d+", "", Ic.expr_of(first))
+            b = _re.sub(r"#\d+", "", Ic.expr_of(p.value)) if p.kind == "return" else f"raises {p.exc.type_name}"
+            if a != b:
+                bad.append(f"first {a[:110]} / second {b[:110]}")
+        return bad
     n = 0
     for label, docs in cases:
+        if same_object:
+            bad = again(docs[-1])
+            n += 1
+            ctx.check(not bad, rule, f"compilation twice on one object [{label}]", (bad[0] if bad else "")[:300],
+                      "asking the same Yaml2Regex object again gives the same regex")
         fresh = outcomes([docs[-1]])
         got = outcomes(docs)
         diff = sorted(got ^ fresh)
